@@ -447,7 +447,7 @@ func VerifC04_Wide() {
 		nsat, nsig int
 		mask       uint64
 	}{
-		{8, 8, 0x8040201008040201}, {4, 16, 0x8000400020001000}, {16, 4, 0x8421842184218421},
+		{8, 8, 0x8040201008040201}, {5, 7, 0x7ffffffff}, {4, 16, 0x8000400020001000}, {16, 4, 0x8421842184218421},
 		{5, 12, 0x0800000000000801}, {64, 1, 0x8000000000000001}, {2, 32, 0x8000000100000001},
 		{8, 8, 0xffffffffffffffff}, {6, 2, 0xfff},
 	}
